@@ -64,6 +64,7 @@ pub fn run_all(ctx: &Ctx) {
     }
     table!(run);
     run_exact_parts(ctx);
+    crate::c17t::run_all(ctx, "asan_");
 }
 
 pub fn replay(ctx: &Ctx, sub: &str, case: &serde_json::Value) -> i32 {
